@@ -1,6 +1,6 @@
 """DUT factory for the Wishbone interconnect family (C06, C11): real InterconnectShared / Crossbar
 with tagged masters and policy-driven zero-latency slaves (see specs/wbic/WbIcContract.tla)."""
-from migen import Module, Signal, Array, Constant, If, Case
+from migen import Module, Signal, Array, Constant, If, Case, Mux
 
 from litex.soc.interconnect import wishbone
 from litex.soc.integration.soc import SoCRegion
@@ -86,7 +86,8 @@ def make(spec):
         raise ValueError(kind)
     top.submodules.ic = ic
     for mi in masters:
-        outs += [mi.ack, mi.err, mi.dat_r]
+        # read data as a small code: slave tags 9..11, 15 = all ones (the time-out's error data)
+        outs += [mi.ack, mi.err, Mux(mi.dat_r == 0xffffffff, 15, mi.dat_r[:4])]
     for sj in slaves:
         outs += [sj.cyc, sj.stb, sj.we, sj.dat_w, sj.adr]
     err = getattr(getattr(ic, "timeout", None), "error", None)
@@ -152,4 +153,15 @@ def configs(tier, prop="C06"):
             add(kind="shared", n=3, m=3, map="mixed", rw=0, errs=0, register=True, minlat=1)
             add(kind="crossbar", n=3, m=3, map="mixed", rw=0, errs=0, hole=False)
             add(kind="shared", n=2, m=2, decoder="range", waitstates=1)
+    if prop == "C11":
+        add(kind="shared", n=1, m=1, map="contig", timeout=1, faulty=1)
+        add(kind="shared", n=1, m=2, timeout=2, faulty=1)
+        add(kind="shared", n=2, m=1, map="contig", timeout=2, faulty=1, rw=0, slack=2)
+        add(kind="shared", n=2, m=2, timeout=3, faulty=1, rw=0, errs=0, slack=2, register=True, minlat=1)
+        add(kind="crossbar", n=1, m=1, map="contig", timeout=2, faulty=1, rw=0, errs=0)
+        if tier == "thorough":
+            add(kind="shared", n=2, m=2, timeout=1, faulty=1, slack=2)
+            add(kind="shared", n=2, m=2, timeout=4, faulty=1, rw=0, slack=2)
+            add(kind="shared", n=3, m=2, timeout=2, faulty=1, rw=0, errs=0, slack=2)
+            add(kind="crossbar", n=2, m=2, timeout=2, faulty=1, rw=0, errs=0, slack=2)
     return L
